@@ -43,7 +43,12 @@ SENT = object()
 LOOKALIKES = ["+1", " 1", "1 ", "01", "-0", "1_0", "１", "1.0", "1e0", "0x1", "00", "+0", "1\n", "١", "1\u0663", "1\uff11", "-1\uff10"]
 
 
+BEYOND = ["9007199254740992", "-9007199254740992", "99999999999999999999"]
+
+
 def tok_class(t):
+    if t in BEYOND or (t.lstrip("-").isascii() and t.lstrip("-").isdigit() and P.is_canonical_index(t.lstrip("-")) and abs(int(t)) > P.MAX_INDEX):
+        return "beyond-limit"
     if P.is_canonical_index(t):
         return "index"
     if t in LOOKALIKES or (t.strip().lstrip("+-").replace("_", "").isdigit() and not P.is_canonical_index(t)):
@@ -261,8 +266,25 @@ def t_exhaustive(shard, nshards):
     return stats
 
 
+def t_beyond():
+    """object members whose names are integers beyond the index limit: RFC 6901 resolves them like any other member"""
+    stats = Stats()
+    n = 0
+    for b in BEYOND:
+        for doc in ({b: [10, 11], "a": 1}, {"x": {b: {"k": None}}}, [{b: 0}]):
+            for parts, _ in list(nodes(doc)):
+                toks = [str(p) for p in parts]
+                if b in toks:
+                    judge(stats, doc, toks, "beyond-limit")
+                    n += 1
+                    stats.nt("beyond", canon(doc), P.encode(toks))
+    stats.subspaces.append({"name": "member names that are integers beyond +-(2**53-1) x 3 document shapes", "size": n, "exhaustive": True})
+    return stats
+
+
 def tasks(tier, seed):
     ts = [{"name": "exhaustive-%d" % k, "fn": "t_exhaustive", "kw": {"shard": k, "nshards": 16}} for k in range(16)]
+    ts.append({"name": "beyond-limit", "fn": "t_beyond"})
     n = 600 if tier == "quick" else 12000
     for k in range(16):
         ts.append({"name": "random-%d" % k, "fn": "t_random", "kw": {"seed": mix(seed, ID, k), "n": n}})
